@@ -67,8 +67,11 @@ type Config struct {
 
 // Case is a full case.
 type Case struct {
-	Cfg Config     `json:"cfg"`
-	Cbs []Callback `json:"cbs"`
+	// PubFail: the connection refuses every event publish (query events aside). The attempts
+	// are logged; apply handlers and listeners must run exactly as with a healthy connection.
+	PubFail bool       `json:"pubFail,omitempty"`
+	Cfg     Config     `json:"cfg"`
+	Cbs     []Callback `json:"cbs"`
 }
 
 func (c Case) String() string { b, _ := json.Marshal(c); return string(b) }
@@ -87,6 +90,7 @@ type harness struct {
 	cur      *EvCall
 	curCb    *Callback
 	retained []retainedEvent
+	kept     map[string]res.Resource
 }
 
 func js(v interface{}) string {
@@ -145,6 +149,17 @@ func (h *harness) checkRetained() string {
 	return ""
 }
 
+// keep stores the request object of a finished handler: an application may hold on to it
+// and emit events on it later (from a With callback of the same resource).
+func (h *harness) keep(r res.Resource) {
+	h.mu.Lock()
+	if h.kept == nil {
+		h.kept = map[string]res.Resource{}
+	}
+	h.kept[r.ResourceName()] = r
+	h.mu.Unlock()
+}
+
 func (h *harness) current() *EvCall {
 	h.mu.Lock()
 	defer h.mu.Unlock()
@@ -164,6 +179,7 @@ func (h *harness) handlerOpts(cfg Config, typ string) []res.Option {
 		cb := h.curCb
 		h.mu.Unlock()
 		h.exec(r, r, cb.Via, cb.Script)
+		h.keep(r)
 	}), res.GetResource(func(r res.GetRequest) {
 		h.mu.Lock()
 		cb := h.curCb
@@ -173,6 +189,7 @@ func (h *harness) handlerOpts(cfg Config, typ string) []res.Option {
 			return
 		}
 		h.exec(r, r, cb.Via, cb.Script)
+		h.keep(r)
 	}), res.Access(func(r res.AccessRequest) {
 		h.mu.Lock()
 		cb := h.curCb
@@ -182,6 +199,7 @@ func (h *harness) handlerOpts(cfg Config, typ string) []res.Option {
 			return
 		}
 		h.exec(r, r, cb.Via, cb.Script)
+		h.keep(r)
 	}))
 	if cfg.Apply["change"] {
 		o = append(o, res.ApplyChange(func(r res.Resource, ch map[string]interface{}) (map[string]interface{}, error) {
@@ -701,6 +719,15 @@ func listenerID(e logEntry) string {
 
 func runCase(c Case) (string, bool) {
 	h := &harness{conn: fakeconn.New()}
+	if c.PubFail {
+		h.conn.LogFailedPublish = true
+		h.conn.FailPublish = func(subject string, n int) error {
+			if strings.HasPrefix(subject, "event.") && !strings.HasSuffix(subject, ".query") {
+				return errors.New("injected publish failure")
+			}
+			return nil
+		}
+	}
 	s := h.build(c.Cfg)
 	r, err := svc.Start(s, h.conn, nil)
 	if err != nil {
@@ -713,10 +740,19 @@ func runCase(c Case) (string, bool) {
 		start := h.conn.LogLen()
 		reply := ""
 		switch cb.Via {
-		case "with":
+		case "with", "kept":
 			done := make(chan struct{})
 			if err := s.With(cb.RName, func(rr res.Resource) {
 				defer close(done)
+				if cb.Via == "kept" {
+					// the script runs on the request object kept by an earlier handler of this
+					// resource, if there was one
+					h.mu.Lock()
+					if k := h.kept[cb.RName]; k != nil {
+						rr = k
+					}
+					h.mu.Unlock()
+				}
 				h.exec(rr, nil, "with", cb.Script)
 			}); err != nil {
 				return "With: " + err.Error(), false
@@ -788,7 +824,11 @@ func runCase(c Case) (string, bool) {
 		if msg := h.checkRetained(); msg != "" {
 			return fmt.Sprintf("callback %s on %s: %s", cb.Via, cb.RName, msg), nt
 		}
-		want, failing, invalid, events := predict(c.Cfg, cb, reply)
+		pcb := cb
+		if pcb.Via == "kept" {
+			pcb.Via = "with"
+		}
+		want, failing, invalid, events := predict(c.Cfg, pcb, reply)
 		class := classOf(cb.RName)
 		anyApply := false
 		for _, v := range c.Cfg.Apply {
@@ -816,9 +856,10 @@ func genCase() *rapid.Generator[Case] {
 			c.Cfg.Listeners[k] = rapid.IntRange(0, 3).Draw(t, "listeners-"+k)
 		}
 		c.Cfg.Warm = rapid.IntRange(0, 3).Draw(t, "warm") == 0
+		c.PubFail = rapid.IntRange(0, 5).Draw(t, "pubfail") == 0
 		n := rapid.IntRange(1, 4).Draw(t, "ncb")
 		for i := 0; i < n; i++ {
-			cb := Callback{Via: rapid.SampledFrom([]string{"with", "call", "call", "get", "access", "query"}).Draw(t, "via")}
+			cb := Callback{Via: rapid.SampledFrom([]string{"with", "call", "call", "get", "access", "query", "kept"}).Draw(t, "via")}
 			class := rapid.SampledFrom([]string{"m", "c", "u", "mm", "m", "c", "root"}).Draw(t, "class")
 			cb.RName = "svc." + class + "." + rapid.SampledFrom([]string{"1", "2", "abc"}).Draw(t, "id")
 			if class == "root" {
